@@ -1,38 +1,11 @@
 #pragma once
 // tlru_cache (per-entry ttl, multimap<time_point,size_t> ttl index) and utlru_cache (uniform ttl, list<size_t> ttl list)
-#include <optional>
-#include <cappuccino/allow.hpp>
-#include <cappuccino/lock.hpp>
-#include <cappuccino/peek.hpp>
 #ifdef C_IS_UTLRU
-#include <cappuccino/utlru_cache.hpp>
-#define T_NAME "utlru"
-#define T_TTL 2
-#define T_HAS_CLEAR 1
-#define T_HAS_UPDTTL 1
-using C = cappuccino::utlru_cache<uint64_t, uint64_t, cappuccino::thread_safe::TS>;
-#define DECL_C(c) C c(std::chrono::milliseconds{100}, HCAP)
+#include "api_utlru.hpp"
 #else
-#include <cappuccino/tlru_cache.hpp>
-#define T_NAME "tlru"
-#define T_TTL 1
-#define T_HAS_CLEAR 0
-#define T_HAS_UPDTTL 0
-using C = cappuccino::tlru_cache<uint64_t, uint64_t, cappuccino::thread_safe::TS>;
-#define DECL_C(c) C c(HCAP)
+#include "api_tlru.hpp"
 #endif
 #include "vf_inv.hpp"
-#include "abs.hpp"
-#define T_POLICY P_LRU
-#define T_PEEK 1
-#define T_CAPPED 1
-#define T_PURGE 0
-#define T_HAS_CLEAN 1
-#define T_HAS_AGE 0
-using TP = std::chrono::steady_clock::time_point;
-static inline int64_t tp_i(TP t) { return t.time_since_epoch().count(); }
-static inline TP      i_tp(int64_t x) { return TP(std::chrono::steady_clock::duration(x)); }
-extern int64_t        last_now;
 
 template<class S>
 static void install(C& c, S& s)
@@ -177,20 +150,4 @@ static void alpha(C& c, Abs& a)
             cur = c.m_lru_list.m_pool[cur].next;
         }
     }
-}
-static bool x_insert(C& c, uint64_t k, uint64_t v, uint8_t a, int64_t ttl)
-{
-#ifdef C_IS_UTLRU
-    return c.insert(k, v, (cappuccino::allow)a);
-#else
-    return c.insert(std::chrono::milliseconds{ttl}, k, v, (cappuccino::allow)a);
-#endif
-}
-static bool x_erase(C& c, uint64_t k) { return c.erase(k); }
-static void x_find(C& c, uint64_t k, bool pk, Res& r)
-{
-    auto o = c.find(k, pk ? cappuccino::peek::yes : cappuccino::peek::no);
-    r.ok   = o.has_value();
-    r.val  = r.ok ? *o : 0;
-    r.cnt  = 0;
 }
